@@ -45,6 +45,11 @@ def t_upd_conds(oracle, tier, kinds=None, timeout=240, dt_max=None):
     env = {"VF_ORACLE": oracle}
     if dt_max is not None:
         env["VF_DT_MAX"] = str(dt_max)
+    elif tier == "thorough":
+        # longer steps: up to 10 min when travelling (links are always completed), 4 min (4 curve sub-steps) when charging
+        env["VF_DT_MAX"] = "600"
+        env["VF_DT_MAX_CHARGE"] = "240"
+        timeout = max(timeout, 900)
     for kind in (kinds if kinds is not None else range(M.N_KINDS)):
         conds.append(
             Cond("vf.h.t_upd", "t_upd", case=kind, timeout=timeout, env=dict(env),
@@ -59,7 +64,7 @@ def t_upd_conds(oracle, tier, kinds=None, timeout=240, dt_max=None):
 T_BOUNDS = [
     "T-instr: 1 modelled vehicle; 13 previous activities x 16 instructions; cells = both targets + one unrelated cell; plugs {LEVEL_2, DCFC, not installed, gas pump}; "
     "membership scenarios {all public, vehicle f1 / targets f2, vehicle f1 / targets f1+f2}; request record {none, this vehicle, another vehicle}; BEV and ICE",
-    "T-upd: 1 modelled vehicle; energy in [0, capacity] (float, real-arithmetic model); step length 1..300 s (1..150 s for charging activities); "
+    "T-upd: 1 modelled vehicle; energy in [0, capacity] (float, real-arithmetic model); step length 1..300 s (1..150 s for charging activities) in the quick tier, 1..600 s (1..240 s) in the thorough tier; "
     "single-link haversine routes of 0.4-2 km at 40 km/h; price in [0, 10]; arena BEV uses hive's TabularPowercurve with a 4-point table",
 ]
 T_OUTSIDE = [
